@@ -88,14 +88,34 @@ impl AutoReloader {
     /// If the creator function passed to the constructor fails, the error is
     /// returned from this method.
     pub fn acquire_env(&self) -> Result<EnvironmentGuard<'_>, Error> {
+        #[cfg(feature = "verif_hooks")]
+        verif_hooks::yield_at(verif_hooks::Point::BeforeLock);
         let mut mutex_guard = self.cached_env.lock().unwrap();
+        #[cfg(feature = "verif_hooks")]
+        let mut verif_checked = false;
         if mutex_guard.is_none() || self.notifier.should_reload() {
+            #[cfg(feature = "verif_hooks")]
+            verif_hooks::yield_at(verif_hooks::Point::AfterCheck);
+            #[cfg(feature = "verif_hooks")]
+            {
+                verif_checked = true;
+            }
             let weak_notifier = self.notifier.prepare_and_mark_reload()?;
+            #[cfg(feature = "verif_hooks")]
+            verif_hooks::yield_at(verif_hooks::Point::AfterReset);
             if mutex_guard.is_none() || !self.notifier.fast_reload() {
+                #[cfg(feature = "verif_hooks")]
+                verif_hooks::yield_at(verif_hooks::Point::BeforeCreate);
                 *mutex_guard = Some((self.env_creator)(weak_notifier)?);
+                #[cfg(feature = "verif_hooks")]
+                verif_hooks::yield_at(verif_hooks::Point::AfterCreate);
             } else {
                 mutex_guard.as_mut().unwrap().clear_templates();
             }
+        }
+        #[cfg(feature = "verif_hooks")]
+        if !verif_checked {
+            verif_hooks::yield_at(verif_hooks::Point::AfterCheck);
         }
         Ok(EnvironmentGuard { mutex_guard })
     }
@@ -160,7 +180,11 @@ impl Notifier {
     /// Tells the notifier that the environment needs reloading.
     pub fn request_reload(&self) {
         if let Some(handle) = self.handle() {
+            #[cfg(feature = "verif_hooks")]
+            verif_hooks::yield_at(verif_hooks::Point::BeforeSet);
             handle.lock().unwrap().should_reload = true;
+            #[cfg(feature = "verif_hooks")]
+            verif_hooks::yield_at(verif_hooks::Point::AfterSet);
 
             if let Some(callback) = handle.lock().unwrap().on_should_reload_callback.as_ref() {
                 callback();
@@ -372,6 +396,53 @@ impl Notifier {
         let handle = self.handle().expect("notifier unexpectedly went away");
         Notifier {
             handle: NotifierImplHandle::Weak(Arc::downgrade(&handle)),
+        }
+    }
+}
+
+/// Verification hooks (only with the `verif_hooks` feature).
+///
+/// A test harness can install a callback that is invoked at the points of
+/// [`AutoReloader::acquire_env`] and [`Notifier::request_reload`] between which
+/// other threads can observably interleave.  Without the feature none of this
+/// is compiled.
+#[cfg(feature = "verif_hooks")]
+pub mod verif_hooks {
+    use std::sync::{Arc, RwLock};
+
+    /// A point at which the installed callback is invoked.
+    #[derive(Debug, Clone, Copy, PartialEq, Eq, Hash)]
+    pub enum Point {
+        /// `acquire_env`: before locking the cached environment.
+        BeforeLock,
+        /// `acquire_env`: after the reload check (the cached environment is locked).
+        AfterCheck,
+        /// `acquire_env`: after the reload flag was reset.
+        AfterReset,
+        /// `acquire_env`: before the creator function is called.
+        BeforeCreate,
+        /// `acquire_env`: after the creator function returned successfully.
+        AfterCreate,
+        /// `request_reload`: before the reload flag is set.
+        BeforeSet,
+        /// `request_reload`: after the reload flag was set.
+        AfterSet,
+    }
+
+    /// The type of the callback.
+    pub type YieldFn = Arc<dyn Fn(Point) + Send + Sync>;
+
+    static YIELD: RwLock<Option<YieldFn>> = RwLock::new(None);
+
+    /// Installs (or removes) the process global yield callback.
+    pub fn set_yield(f: Option<YieldFn>) {
+        *YIELD.write().unwrap() = f;
+    }
+
+    pub(crate) fn yield_at(point: Point) {
+        let f = YIELD.read().unwrap().clone();
+        if let Some(f) = f {
+            f(point);
         }
     }
 }
